@@ -45,6 +45,7 @@ class Contract:
         self.instantiate = kw.pop("instantiate", [])  # extra ground lemma instances: list of expr texts (valid formulas only: lemma names)
         self.max_paths = kw.pop("max_paths", 400)
         self.list_search = kw.pop("list_search", "indexof")   # "positional": list.index/remove positions are plain integers with first-occurrence facts
+        self.at_yield = kw.pop("at_yield", [])       # generator functions: clauses that hold whenever the function is suspended at a yield
         self.mutates = kw.pop("mutates", [])         # list/set/dict parameters changed in place: final(p) in ensures is their content at exit
         self.ignored_keywords = kw.pop("ignored_keywords", [])   # keyword arguments of an external the contract does not model
         self.heap_independent = kw.pop("heap_independent", False)  # pure and reads no mutable state: a function of its arguments
